@@ -15,8 +15,8 @@ Part B — lock-step schedules: a REAL `SyncObj` (un-networked recording transpo
          callbacks, `commandsLocalCounter`, thread positions.
 
 Private attributes touched: `_SyncObj__{raftState, raftLeader, conf, commandsQueue, commandsWaitingCommit,
-commandsWaitingReply, commandsLocalCounter, raftLog, raftCurrentTerm, parseChangeClusterRequest,
-changeCluster}`, `_FastQueue__queue`, module attributes `syncobj.monotonicTime`, `syncobj.AsyncResult`.
+commandsWaitingReply, commandsLocalCounter (read only: its random start value is handed to the model as `counter0`), raftLog,
+raftCurrentTerm, parseChangeClusterRequest, changeCluster}`, `_FastQueue__queue`, module attributes `syncobj.monotonicTime`, `syncobj.AsyncResult`.
 
 Property monitors (against the property text, on the real observations only): every submitted call is
 enqueued exactly once or gets QUEUE_FULL; never dequeued twice; FIFO; every callback at most once; a sync
@@ -465,6 +465,9 @@ def run_schedule(so, fid, sched):
     ["call",t] | ["timeout",t] | ["tick",hl,il,wl,dn] | ["drain",hl,il,wl,dn] | ["answer",j,code] |
     ["rput",k] | ["rput",k,node,req].  Returns (labels for the model, real 'ok' list, real log, snapshot)."""
     rs = RealSys(so, sched["max"], sched["progs"], sched["batch"])
+    # start value of commandsLocalCounter (48 random bits since the restart repair): read, not injected;
+    # the model is started from the same value, request ids are compared absolutely
+    sched["counter0"] = rs.o._SyncObj__commandsLocalCounter
     labels, oks = [], []
     err = None
     try:
@@ -660,7 +663,9 @@ def monitors(sched, log, snap):
 
 def run(ctx):
     so = qc.load(ctx)
-    with qc.real_runtime(so):       # not the clock / PRNG an earlier component left behind
+    # not the clock / PRNG an earlier component left behind; a private seeded PRNG makes the start value
+    # of commandsLocalCounter (random.getrandbits(48)) replay from VERIF_SEED
+    with qc.real_runtime(so, seed="%d/queue_model" % ctx.seed):
         return _run(ctx, so)
 
 
@@ -715,7 +720,8 @@ def _run(ctx, so):
             break
         labels, oks, log, snap, err = run_schedule(so, fid, sc)
         cov["schedules"] += 1
-        lines.append(json.dumps({"op": "sys", "max": sc["max"], "skip": True, "labels": labels,
+        lines.append(json.dumps({"op": "sys", "max": sc["max"], "counter0": sc.get("counter0", 0), "skip": True,
+                                 "labels": labels,
                                  "progs": [[spec_json(fid, s) for s in p] for p in sc["progs"]]}))
         reals.append((sc, labels, oks, log, snap, err))
     try:
